@@ -13,51 +13,6 @@ Import ListNotations.
 Open Scope string_scope.
 Open Scope list_scope.
 
-(* ---------- a stable model is empty on predicates that head no rule and are not facts ---------- *)
-Lemma bformula_sat_mono H T sg b : sub H T -> bformula_sat H T sg b -> bformula_sat T T sg b.
-Proof.
-  intros Hs. destruct b as [[[| |] a]|c]; cbn; auto.
-  intros [vs [Hv Hh]]. exists vs. split; [exact Hv|apply Hs; exact Hh].
-Qed.
-Lemma body_sat_mono H T sg b : sub H T -> body_sat H T sg b -> body_sat T T sg b.
-Proof. intros Hs Hb. unfold body_sat in *. eapply Forall_impl; [|exact Hb]. intros x. apply bformula_sat_mono, Hs. Qed.
-
-Theorem stable_nonhead_empty (T : pint) (P : program) (F : pint) (p : string) (a : list gval) :
-  stable T P F ->
-  (forall r, In r P -> head_pred (rhead r) <> Some (mkpred p (List.length a))) ->
-  ~ F p a -> ~ T p a.
-Proof.
-  intros [[HTT HF] Hmin] Hnh HnF HT.
-  set (H := fun p' a' => T p' a' /\ ~ (p' = p /\ a' = a)).
-  assert (Hsub : sub H T) by (intros p' a' [Hx _]; exact Hx).
-  assert (Hx : H p a); [|destruct Hx as [_ Hx]; apply Hx; auto].
-  apply (Hmin H Hsub); [| |exact HT].
-  - intros r Hr sg. split; [|exact (proj2 (HTT r Hr sg))].
-    intros Hb. apply (body_sat_mono H T sg _ Hsub) in Hb. pose proof (proj2 (HTT r Hr sg) Hb) as Hh.
-    specialize (Hnh r Hr). destruct (rhead r) as [a0|a0|]; cbn in *; [| |exact Hh].
-    + intros vs Hv. split; [apply Hh; exact Hv|]. intros [E1 E2]. apply Hnh. unfold atom_pred.
-      rewrite E1, <- E2, (tuple_vals_length _ _ _ Hv). reflexivity.
-    + intros vs Hv. destruct (Hh vs Hv) as [Hw|Hw]; [left|right; exact Hw].
-      split; [exact Hw|]. intros [E1 E2]. apply Hnh. unfold atom_pred.
-      rewrite E1, <- E2, (tuple_vals_length _ _ _ Hv). reflexivity.
-  - intros p' a' Hf. split; [apply HF; exact Hf|]. intros [-> ->]. exact (HnF Hf).
-Qed.
-
-(* for external stable models: a public predicate that is neither an input nor the head of a rule
-   of P - e.g. an output predicate that does not occur in P - is empty *)
-Theorem ext_stable_nonhead_empty (t : ext_task) (FI : fint) (N : pint) (P : program) (q : pred) :
-  ext_stable_full t FI N P ->
-  (forall r, In r P -> head_pred (rhead r) <> Some q) -> ~ In q (task_inputs t) ->
-  In q (ext_voc t P) ->
-  forall d, List.length d = parity q -> ~ N (psym q) d.
-Proof.
-  intros Hst Hnh Hni Hv d Hd HN. destruct q as [p n]. cbn in *. subst n.
-  apply (stable_nonhead_empty _ _ _ p d Hst).
-  - intros r' Hr' Hh. destruct (ph_in_heads FI _ P r' _ Hr' Hh) as [r [Hr Hh']]. exact (Hnh r Hr Hh').
-  - intros [_ Hin]. exact (Hni Hin).
-  - split; [exact HN|exact Hv].
-Qed.
-
 (* ---------- propositional tasks ---------- *)
 Definition p0 (p : string) : bformula := BLit (mklit SNone (mkatom p [])).
 Definition n0 (p : string) : bformula := BLit (mklit SNeg (mkatom p [])).
